@@ -436,12 +436,47 @@ pub fn run(tier: Tier) -> i32 {
             }
         }
     }
-    rep.cov("evaluations", json!(cases.len() as u64 + pairs));
+    // ---- display filter and display cap together (real ErrPrinter, in-process): every message sequence of length
+    //      <= 4 over the codes {10, 11, 44, 444} x every non-empty filter subset of {10, 11, 44, 444, 4} x caps
+    //      {none, 1, 2, 3, 5}: shown = the first `cap` messages whose code is listed, in order
+    let mut combos = 0u64;
+    {
+        let alphabet = ["10", "11", "44", "444"];
+        let fcodes = ["10", "11", "44", "444", "4"];
+        let seqs = crate::gen::sequences(&[0u8, 1, 2, 3], 4);
+        'outer: for sq in seqs.iter().filter(|s| !s.is_empty()) {
+            let msgs: Vec<Box<str>> = sq.iter().enumerate().map(|(i, c)| format!("{:#X}: [E{}] something happened [00 01]", 0x40 * (i + 1), alphabet[*c as usize]).into_boxed_str()).collect();
+            let mut unique: Vec<String> = sq.iter().map(|c| alphabet[*c as usize].to_string()).collect();
+            unique.sort();
+            unique.dedup();
+            for fm in 1u32..(1 << fcodes.len()) {
+                let filter: Vec<String> = fcodes.iter().enumerate().filter(|(i, _)| fm & (1 << i) != 0).map(|(_, c)| c.to_string()).collect();
+                for cap in [None, Some(1u32), Some(2), Some(3), Some(5)] {
+                    capture::install();
+                    capture::reset();
+                    ErrPrinter::new(cap, Some(&filter)).print(msgs.iter(), &unique);
+                    let shown: Vec<String> = capture::texts().iter().map(|t| strip_ansi(t)).collect();
+                    let want: Vec<String> = msgs.iter().filter(|m| filter.iter().any(|f| m.contains(&format!("[E{f}]")))).take(cap.unwrap_or(u32::MAX) as usize).map(|m| m.to_string()).collect();
+                    combos += 1;
+                    if shown != want {
+                        rep.violation(Violation {
+                            signature: format!("code-filter+cap:{}", if shown.len() < want.len() { "listed-message-hidden" } else { "wrong-messages-shown" }),
+                            description: format!("messages {:?}, filter {:?}, cap {:?}: shown {:?}, expected the first {} listed ones {:?}", msgs, filter, cap, shown, want.len(), want),
+                            replay: json!({"filter": filter, "cap": cap, "codes": sq}),
+                        });
+                        break 'outer;
+                    }
+                }
+            }
+        }
+    }
+    rep.cov("filter_cap_combinations", json!(combos));
+    rep.cov("evaluations", json!(cases.len() as u64 + pairs + combos));
     rep.cov("cli_cases", json!(cases.len()));
     rep.cov("code_pairs", json!(pairs));
     rep.cov("distinct_nontrivial", json!(cases.iter().filter(|c| c.exit != Exit::Code(0)).count()));
     rep.cov("exhaustive", json!(true));
-    rep.cov("rule", json!("contract table over: clean x 5 -E values x 3 modes; 1/2/21 errors x 5 -E values x 7 display options; a stream with mixed codes (E10, E11, E40, E41, E44, E444, E445, ...) x code lists incl. prefixes; a fatal framing error at every packet index x 3 -E values; {fatal framing error, truncated last payload, RDH sanity fault, clean} x 7 modes incl. the three views and data to stdout x 2 -E values with the oracle: exit = N iff an error was reported (ERROR line on stderr or errors / fatal error in the statistics file); 5 unreadable / unrecognisable inputs x 3 modes; 10 invalid option combinations (must not write st.json / out.raw); all ordered pairs of 43 codes through the display filter; thorough: every -E value 1..=255 x {clean, one error, one muted error, fatal framing error} and -E 0 / 256 / -1 / 1000 rejected. non-trivial = the contract demands a non-zero exit"));
+    rep.cov("rule", json!("contract table over: clean x 5 -E values x 3 modes; 1/2/21 errors x 5 -E values x 7 display options; a stream with mixed codes (E10, E11, E40, E41, E44, E444, E445, ...) x code lists incl. prefixes; a fatal framing error at every packet index x 3 -E values; {fatal framing error, truncated last payload, RDH sanity fault, clean} x 7 modes incl. the three views and data to stdout x 2 -E values with the oracle: exit = N iff an error was reported (ERROR line on stderr or errors / fatal error in the statistics file); 5 unreadable / unrecognisable inputs x 3 modes; 10 invalid option combinations (must not write st.json / out.raw); all ordered pairs of 43 codes through the display filter; every message sequence of length <= 4 over 4 codes x 31 code-filter subsets x 5 display caps through the real ErrPrinter (shown = the first N listed messages); thorough: every -E value 1..=255 x {clean, one error, one muted error, fatal framing error} and -E 0 / 256 / -1 / 1000 rejected. non-trivial = the contract demands a non-zero exit"));
     rep.sample(json!({"case": cases[cases.len() / 2].label, "args": cases[cases.len() / 2].args}));
     rep.assume("with an error cap the run stops early: only 'at most N shown' and the exit status are judged, not the totals");
     rep.finish()
@@ -462,6 +497,7 @@ mod capture {
     use std::sync::Once;
     static N: AtomicUsize = AtomicUsize::new(0);
     static ONCE: Once = Once::new();
+    pub static TEXTS: std::sync::Mutex<Vec<String>> = std::sync::Mutex::new(Vec::new());
     struct L;
     impl log::Log for L {
         fn enabled(&self, _: &log::Metadata) -> bool {
@@ -470,6 +506,7 @@ mod capture {
         fn log(&self, r: &log::Record) {
             if r.level() == log::Level::Error {
                 N.fetch_add(1, Ordering::SeqCst);
+                TEXTS.lock().unwrap().push(format!("{}", r.args()));
             }
         }
         fn flush(&self) {}
@@ -483,6 +520,10 @@ mod capture {
     }
     pub fn reset() {
         N.store(0, Ordering::SeqCst);
+        TEXTS.lock().unwrap().clear();
+    }
+    pub fn texts() -> Vec<String> {
+        TEXTS.lock().unwrap().clone()
     }
     pub fn count() -> usize {
         N.load(Ordering::SeqCst)
